@@ -471,9 +471,12 @@ fn rewrite_match_body(
         }
 
         let indent_str = shape.indent.to_string_with_newline(context.config);
+        // The block we add gets the comma `arm_comma` gives a block body, so that formatting
+        // the result again does not change it.
+        let never_last = is_last && context.config.trailing_comma() == SeparatorTactic::Never;
         let (body_prefix, body_suffix) =
             if context.config.match_arm_blocks() && !context.inside_macro() {
-                let comma = if context.config.match_block_trailing_comma() {
+                let comma = if context.config.match_block_trailing_comma() && !never_last {
                     ","
                 } else {
                     ""
